@@ -41,7 +41,13 @@ func genC09(t *rapid.T) c09Case {
 	c.Kind = rapid.SampledFrom([]string{"indexed", "linear"}).Draw(t, "kind")
 	c.NLocs = rapid.IntRange(3, 5).Draw(t, "nlocs")
 	c.Loops = rapid.IntRange(0, 3).Draw(t, "loops?") == 0
-	c.Sys = rapid.SampledFrom([]int{0, 0, 1, 2, 3}).Draw(t, "sys")
+	// (3 = a TTL of 1 ms is not generated any more: the harness works on
+	// instances it got from System.GetLocation, which does not pin them;
+	// with a TTL that can run out between two steps of one observation,
+	// the cache may already hold another instance while the harness still
+	// writes through the old one - a staleness no request through the
+	// System can produce.  C17 covers the 1 ms TTL through System requests.)
+	c.Sys = rapid.SampledFrom([]int{0, 0, 1, 2}).Draw(t, "sys")
 	locs := c09Locs[:c.NLocs]
 	n := rapid.IntRange(3, 22).Draw(t, "nops")
 	bulkLeft := 0
